@@ -100,6 +100,11 @@ theorem depth_tie (st : St) : GenFn.state_Depth st.execPath = st.depth := by
   unfold GenFn.state_Depth St.depth
   rfl
 
+/-- the regenerated `Down` on concrete stacks: a descent, the panic on descending into the current node, the panic above `MaxLevel` -/
+example : GenFn.state_Down [0x62] [[0x61]] 4 2 2 = some ("", [[0x61], [0x62]], 5, 0, 0) ∧ GenFn.state_Down [0x61] [[0x61]] 4 2 2 = none := by decide
+example : GenFn.state_Down [0x62] (List.replicate 129 [0x61]) 0 0 0 = none := by
+  simp [GenFn.state_Down]
+
 end Vise.Tie
 
 #print axioms Vise.Tie.down_tie
